@@ -59,10 +59,11 @@ func WeightedSampling(sampleNum int, totalNum int, getWeight func(int) float64) 
 		index int
 	}
 
-	h := make(sampleHeap, sampleNum)
+	h := make(sampleHeap, 0, sampleNum)
 	for i := 0; i < totalNum; i++ {
 		ui := rand.Float64()
-		ki := math.Pow(ui, 1/getWeight(i))
+		// ln(w) - ln(-ln(u)) is order-isomorphic to u^(1/w) but cannot underflow for tiny weights
+		ki := math.Log(getWeight(i)) - math.Log(-math.Log(ui))
 
 		if h.Len() < sampleNum {
 			heap.Push(&h, sampleHeapItem{ki: ki, index: i})
